@@ -101,7 +101,7 @@ check("C16", "exploration",
       "DESIGN.md §3 C16")
 check("C18", "model_checking",
       "explicit-state search over all framed JSON-RPC message histories up to depth 3/4 (+1 behind didOpen) on a fresh real server, reference document model (UTF-16 clamping arithmetic) in lock-step; exhaustive single/paired edit ranges on small documents; position sweep (every request kind at every line / character up to the byte length of the longest line + 2 on 10 documents)",
-      "57-message alphabet (lifecycle, reserved `$/` and unknown method names as requests and as notifications, sync with in-range / past-end / inverted / negative ranges over ASCII and non-ASCII text, every request kind at valid / far / negative positions, malformed bodies and headers): the server never dies, output frames are exact, one response per request id and none for notifications, the document mirror equals the model after every in-contract history, last diagnostics carry the model's version / count / line.",
+      "61-message alphabet (lifecycle, reserved `$/` and unknown method names as requests and as notifications, document notifications without a params member, sync with in-range / past-end / inverted / negative ranges over ASCII and non-ASCII text, every request kind at valid / far / negative positions, malformed bodies and headers): the server never dies, output frames are exact, one response per request id and none for notifications, the document mirror equals the model after every in-contract history, last diagnostics carry the model's version / count / line.",
       "Trusted: the reference position model; each history runs far below the rate limiter window.",
       "DESIGN.md §2.4, §3 C18", engine="engine/common (history enumeration)")
 
